@@ -374,6 +374,34 @@ def run(ctx, broken):
         p = Prog(); body(rng, p)
         cc.append({"src": p.src() + " || " + p.src() + ";" + NOOP, "cmd": "prog2", "expect": "sizeerr", "rv": None,
                    "tags": ["size-mismatch"]})
+    # LONG copy classes: one witness wired into m slots (all four columns of unconstrained rows, registration order
+    # a0 b0 c0 d0 a1 ...). Keys compiled from A (all slots = x); instance B feeds a subset of the slots from a second
+    # witness y != x: the first k slots keep x (every split position k, incl. 16, 32, 48, 64), alternating slots, a random
+    # subset, a single slot. Every row holds for any values, so only the copy constraints can reject the instance.
+    def slots_src(p, m, pick):
+        rows = []
+        for r0 in range(0, m, 4):
+            ws = [pick(j) if j < m else "#0" for j in range(r0, r0 + 4)]
+            rows.append("gate 0 0 0 0 0 0 - %s" % " ".join(ws))
+        return p.src() + ";" + ";".join(rows)
+    for m in ([70] if ctx.tier == "quick" else [17, 18, 33, 40, 70, 130]):
+        p = Prog()
+        if rng.coin(1, 2):
+            body(rng, p)
+        x = p.w(rng.fe()); y = p.w((p.val(x) + 1 + rng.below(5)) % R)
+        a_src = slots_src(p, m, lambda j: p.ref(x))
+        pats = [("split-%d" % k, (lambda k: lambda j: j < k)(k)) for k in range(1, m)]
+        pats.append(("alternating", lambda j: j % 2 == 0))
+        sub = set(rng.below(m) for _ in range(m // 2))
+        pats.append(("random-subset", lambda j: j in sub))
+        one_ = rng.below(m)
+        pats.append(("single-slot", lambda j: j != one_))
+        for name, keep in pats:
+            b_src = slots_src(p, m, lambda j: p.ref(x) if keep(j) else p.ref(y))
+            cc.append({"src": a_src + " || " + b_src, "cmd": "prog2", "expect": "unsat", "rv": None,
+                       "tags": ["copy-constraint", "copy-long-class-%s" % (name if not name.startswith("split") else "split")]})
+        cc.append({"src": a_src + " || " + a_src, "cmd": "prog2", "expect": "sat", "rv": None,
+                   "tags": ["copy-constraint", "copy-long-class-honest"]})
     r.run(cc, cmd="prog2")
     st = r.report(broken)
     st["rule"] = ("programs = 1-4 ordinary components + one raw row of each widget family (range/logic/variable-base/fixed-base/"
@@ -383,7 +411,7 @@ def run(ctx, broken):
                   "component against the arithmetic identity (exactly two non-zero components that sum to zero: rejected only "
                   "because the components carry independent challenge weights); raw rows with arbitrary mixed selectors; a selected row on the last row "
                   "of a full domain (gates = 2^k, wrap-around to row 0) and at 2^k+-1; copy constraints: keys compiled from A, "
-                  "instance B re-wires one position (equal / different value); constraint-count mismatch. Outcome of the real "
+                  "instance B re-wires one position (equal / different value); LONG copy classes (one witness in 70 slots over all four columns; instance B feeds the slots after every split position k, alternating slots, a random subset or a single slot from a second witness with another value: only the copy constraints can reject it); constraint-count mismatch. Outcome of the real "
                   "prove+verify vs the model's proveOutcome (row identities on the padded domain, cyclic next row, copy classes, size).")
     return st
 
